@@ -29,6 +29,7 @@ type Script struct {
 // TunParams describe who opens the tunnel and with which token.
 type TunParams struct {
 	User     string   `json:"user"`     // IdP subject / NTLM user / basic user
+	Login    string   `json:"login"`    // preferred_username at login when it differs from the subject
 	HostName []string `json:"hostName"` // host the token is minted for (symbols) - name part
 	HostPort string   `json:"hostPort"`
 	Entry    []string `json:"entry"`   // for "unsigned": the configured entry passed as ?host=
@@ -300,8 +301,8 @@ func (i *Inst) describeMinted(tok, at string) (M, map[string]interface{}) {
 		hasNbf, nbf = true, int(int64(v)-time.Now().Unix())
 	}
 	st := "unknown"
-	if a, ok := claims["accessToken"].(string); ok && a == at && at != "" {
-		st = "valid"
+	if a, ok := claims["accessToken"].(string); ok && i.IdP != nil {
+		st = i.IdP.State(a)
 	}
 	return tokRec("compact", alg, key, iss, hasExp, exp, hasNbf, nbf, st, "none"), claims
 }
@@ -324,25 +325,40 @@ func (i *Inst) RunProto(s Script, tw *TraceWriter, rng *rand.Rand) error {
 	if user != "" {
 		userSyms = []string{user}
 	}
+	minted := false
+	ensureMint := func() error {
+		if minted || !(cfg.Auth == "openid" || cfg.Auth == "") || !cfg.TokenAuth {
+			return nil
+		}
+		minted = true
+		hostParam := ""
+		if cfg.Sel == "unsigned" {
+			hostParam = i.Conc(s.Tun.Entry)
+		} else if cfg.Sel == "any" {
+			hostParam = i.Conc(append(append([]string{}, s.Tun.HostName...), ":", s.Tun.HostPort))
+		}
+		if cfg.Sel == "signed" {
+			now := time.Now().Unix()
+			hostParam = forge.JWS("HS256", []byte(KeyQuery), forge.Header("HS256"),
+				forge.Claims(map[string]interface{}{"iss": QueryIssuer, "sub": i.Conc(s.Tun.Entry), "exp": now + 300}))
+		}
+		login := s.Tun.Login
+		if login == "" {
+			login = user
+		}
+		tok, _, at, err := i.MintAs(user, login, hostParam, s.Tun.MintIP, s.Tun.MintXFF)
+		if err != nil {
+			return fmt.Errorf("mint: %w", err)
+		}
+		cc.good, cc.at = tok, at
+		cc.goodTok, cc.claims = i.describeMinted(tok, at)
+		if cc.claims == nil {
+			return fmt.Errorf("minted token does not decode: %q", tok)
+		}
+		return nil
+	}
 	switch cfg.Auth {
 	case "openid", "":
-		if cfg.TokenAuth {
-			hostParam := ""
-			if cfg.Sel == "unsigned" {
-				hostParam = i.Conc(s.Tun.Entry)
-			} else if cfg.Sel == "any" {
-				hostParam = i.Conc(append(append([]string{}, s.Tun.HostName...), ":", s.Tun.HostPort))
-			}
-			tok, _, at, err := i.Mint(user, hostParam, s.Tun.MintIP, s.Tun.MintXFF)
-			if err != nil {
-				return fmt.Errorf("mint: %w", err)
-			}
-			cc.good, cc.at = tok, at
-			cc.goodTok, cc.claims = i.describeMinted(tok, at)
-			if cc.claims == nil {
-				return fmt.Errorf("minted token does not decode: %q", tok)
-			}
-		}
 	case "ntlm":
 		oo.NTLM = &wsraw.NTLMCreds{User: user, Pass: i.Users[user]}
 	case "local":
@@ -392,6 +408,9 @@ func (i *Inst) RunProto(s Script, tw *TraceWriter, rng *rand.Rand) error {
 			case ck == "none":
 				pkt = tsgu.TunnelCreate(0x2, "", false)
 			case ck == "good":
+				if err := ensureMint(); err != nil {
+					return err
+				}
 				if cc.good == "" {
 					// no token authentication in this configuration: present some string
 					cookie = "no-token-mode"
@@ -404,6 +423,9 @@ func (i *Inst) RunProto(s Script, tw *TraceWriter, rng *rand.Rand) error {
 				}
 				pkt = tsgu.TunnelCreate(0x2, cookie, true)
 			default:
+				if err := ensureMint(); err != nil {
+					return err
+				}
 				kind := strings.TrimPrefix(ck, "bad:")
 				if kind == "bad" || kind == "" {
 					kind = BadCookieKinds[rng.Intn(len(BadCookieKinds))]
